@@ -282,6 +282,7 @@ func GenAPI(t *rapid.T) APICase {
 	}
 	c.Title = genValue(t, "title", "zqT")
 	c.Template = rapid.SampledFrom([]int{0, 0, 0, 1, 2}).Draw(t, "template")
+	c.SharedOpts = rapid.IntRange(0, 2).Draw(t, "option-list-shared-with-another-handler") == 0
 
 	docs := []string{c.UIDoc()}
 	if sd, ok := c.SpecDoc(); ok {
